@@ -9,7 +9,7 @@
    Outcomes: Ok | Err e | Panic site, Panic exactly where the code has unwrap().
    Definitions only (proofs: Proofs/C17_*.v, Proofs/C16_*.v, Proofs/C20_*.v). *)
 From Coq Require Import String List Bool ZArith QArith.
-From SpdVerif Require Import Base.NumOps Spec.ConfigSpec Gen.ConfigTables Model.ConfigTypes.
+From SpdVerif Require Import Base.CfgNumOps Spec.ConfigSpec Gen.ConfigTables Model.ConfigTypes.
 Import ListNotations.
 
 Set Implicit Arguments.
